@@ -65,6 +65,8 @@ def stepLine (hp : Heap) (line : String) : Heap × String :=
     | none => (hp, "bad-op")
     | some op =>
       let (hp', r) := step hp op
-      (hp', showRes r ++ " | " ++ showHeap hp')
+      match r with
+      | .bad => (hp', "bad-op")
+      | _ => (hp', showRes r ++ " | " ++ showHeap hp')
 
 end Sm.DriverOwn
